@@ -4,6 +4,7 @@ mod c04;
 mod c05;
 mod c08;
 mod c09;
+mod c10;
 mod c11;
 mod c16;
 mod c17;
@@ -60,6 +61,7 @@ fn main() {
         "C04" => c04::run(&mut rng, &mut out, &tier),
         "C05" => c05::run(&mut rng, &mut out, &tier),
         "C08" => c08::run(&mut rng, &mut out, &tier),
+        "C10" => c10::run(&mut rng, &mut out, &tier),
         "probe" => probe::run(),
         "C01" => c01::run(&mut rng, &mut out, &tier),
         _ => {
